@@ -33,6 +33,7 @@ structure Case where
   sbhArg : Int
   app : Option App
   appStakedNow : Bool
+  appStaked : Bool
   appSigOK : Bool
   clientSigOK : Bool
   label : String
@@ -46,8 +47,7 @@ def mkCase (m : List (String × String)) : Case :=
   let sbhArg := intOf (g "sbhArg")
   let app : Option App :=
     if boolOf (g "appFound") then
-      some { pubRaw := strOf (g "appRecPub"), chains := listOf (g "appChains"), maxRelays := intOf (g "appMaxRelays"),
-             staked := g "appStatus" = "2" && !boolOf (g "appJailed") }
+      some { pubRaw := strOf (g "appRecPub"), chains := listOf (g "appChains"), maxRelays := intOf (g "appMaxRelays") }
     else none
   let session : Except (String × Nat) (List (Option Bytes)) :=
     let s := g "session"
@@ -78,13 +78,14 @@ def mkCase (m : List (String × String)) : Case :=
     verify := fun _ msg _ => if msg = [0] then appSigOK else clientSigOK,
     session := session,
     sessionEndCtxOk := g "label" ≠ "session-end-ctx-missing" }
-  { E, r, sbhArg, app, appStakedNow := boolOf (g "appStakedNow"), appSigOK, clientSigOK, label := g "label" }
+  { E, r, sbhArg, app, appStakedNow := boolOf (g "appStakedNow"), appStaked := g "appStatus" = "2" && !boolOf (g "appJailed"),
+    appSigOK, clientSigOK, label := g "label" }
 
 def resStr : Res → String
   | .ok m => s!"OK {m}"
-  | .err sp c => s!"ERR {sp}:{c}"
-  | .panic => "PANIC"
-  | .fatal => "FATAL"
+  | .fail (.err sp c) => s!"ERR {sp}:{c}"
+  | .fail .panic => "PANIC"
+  | .fail .fatal => "FATAL"
 
 /-- The executable specification: the implementation said "serve"; every condition of the
 property must hold of the inputs (computed from the oracle data, not from the model). -/
@@ -108,7 +109,7 @@ def specServed (c : Case) (handle : Bool) : Option Verdict :=
     else if E.evidence.sealed_ then fail "served-after-seal"
     else if E.evidence.has then fail "served-duplicate-proof"
     else if handle && (p.sbh - 1) % E.bps ≠ 0 then fail "served-session-height-not-a-session-start"
-    else if !app.staked then fail "served-for-non-staked-application"
+    else if !c.appStaked then fail "served-for-non-staked-application"
     else none
 
 def step (_ : Unit) (pre post : List String) : Unit × Verdict :=
